@@ -538,3 +538,82 @@ def slice_bounds_offset(ctx: Ctx) -> None:
         key = f'yield@{norm(_enclosing_branch(fnode, node))[:50]}'
         (ctx.ok if ok else ctx.bad)(R, f, node, 'the offset has been added on every path to this yield' if ok else
                                     'on some path a start / stop position is yielded without the offset although it applies: the slice addresses the first outer group', key=key)
+
+
+def nomap_offset_membership(ctx: Ctx) -> None:
+    R = 'I.nomap-offset-membership'
+    ctx.rule(R, 'sibling agreement, map-less route *with an offset* (an auto-integer index as an inner level of a hierarchy — what Frame.from_concat_items of default-indexed '
+             'frames builds): like LocMap.loc_to_iloc it must (a) raise for a key that is not one of its labels 0..n-1 in the element, list and integer-array arms '
+             '(a range test with a raise) before adding the offset — otherwise the position of a label of the *next* group is returned, (b) honour partial_selection in '
+             'the list and array arms (filter instead of raise), and (c) give a label slice explicit bounds (never hand back the helper\'s None ends)', floor=6)
+    prog = ctx.prog
+    f = prog.func('index.Index._loc_to_iloc')
+    branch = None
+    for n_ in walk_local(f.node):
+        if isinstance(n_, ast.If) and '_map is None' in norm(n_.test) and 'offset is not None' in norm(n_.test):
+            branch = n_
+            break
+    ctx.require(branch is not None, 'map-less branch with an offset in Index._loc_to_iloc')
+    arms: tp.List[tp.Tuple[str, tp.List[ast.stmt]]] = []
+    tail: tp.List[ast.stmt] = []
+    for s in branch.body:
+        # a class-dispatch arm tests the kind of the key (slice / ndarray / list); anything else belongs to the element path after the dispatch
+        if isinstance(s, ast.If) and any(mk in norm(s.test) for mk in ('slice', 'ndarray', 'list', 'KEY_ITERABLE')):
+            cur: tp.Optional[ast.stmt] = s
+            while isinstance(cur, ast.If):
+                arms.append((norm(cur.test), cur.body))
+                cur = cur.orelse[0] if len(cur.orelse) == 1 else None
+        else:
+            tail.append(s)
+
+    def range_raise(stmts: tp.Sequence[ast.stmt]) -> bool:
+        '''a raise under a test that compares with 0 and with a size (two-sided range), or two one-sided tests'''
+        lows = highs = False
+        for s in stmts:
+            for i in ast.walk(s):
+                if isinstance(i, ast.If) and any(isinstance(x, ast.Raise) for b in i.body for x in ast.walk(b)):
+                    for c in ast.walk(i.test):
+                        if isinstance(c, ast.Compare):
+                            txt = norm(c)
+                            if '0' in [norm(c.left)] + [norm(x) for x in c.comparators]:
+                                lows = True
+                            if any(isinstance(o, (ast.Lt, ast.LtE, ast.Gt, ast.GtE)) for o in c.ops) and any(w in txt for w in ('size', 'len(', '__len__')):
+                                highs = True
+                        if isinstance(c, ast.Call) and isinstance(c.func, ast.Attribute) and c.func.attr == 'all' and isinstance(i.test, ast.UnaryOp):
+                            lows = highs = True        # `if not valid.all(): raise`, valid a two-sided mask
+        return lows and highs
+
+    def consults_partial(stmts: tp.Sequence[ast.stmt]) -> bool:
+        return any(isinstance(i, (ast.If, ast.IfExp)) and 'partial_selection' in norm(i.test) for s in stmts for i in ast.walk(s))
+    n = 0
+    checks = [(('slice',), 'slice'), (('ndarray',), 'integer array'), (('list', 'KEY_ITERABLE'), 'list of labels')]
+    for markers, what in checks:
+        arm = [(t, b) for t, b in arms if any(mk in t for mk in markers)]
+        ctx.require(bool(arm), f'{what} arm of the map-less offset branch')
+        body = arm[0][1]
+        if what == 'slice':
+            n += 1
+            key = 'Index._loc_to_iloc:no-map+offset:slice'
+            direct = [r for s in body for r in ast.walk(s) if isinstance(r, ast.Return) and isinstance(r.value, ast.Call) and call_name(r.value) == 'slice_to_inclusive_slice']
+            explicit = [r for s in body for r in ast.walk(s) if isinstance(r, ast.Return) and isinstance(r.value, ast.Call) and call_name(r.value) == 'slice'
+                        and all('offset' in norm(a) for a in r.value.args[:2])]
+            if direct:
+                ctx.bad(R, f, direct[0], f'`{norm(direct[0])[:60]}` hands back the helper\'s slice as it is: an open end (None) runs to the edge of the whole hierarchy', key=key)
+            elif explicit:
+                ctx.ok(R, f, explicit[0], 'an ascending label slice gets explicit bounds over the offset', key=key)
+            else:
+                ctx.unk(R, f, body[0], 'slice arm in an unrecognised form', key=key)
+            continue
+        for aspect, pred, msg in (('membership', range_raise, 'adds the offset to a key without a range test that raises: a label this sub-level does not hold is answered with the '
+                                   'position of a label of the next group'),
+                                  ('partial', consults_partial, 'ignores partial_selection: a list selector inside an HLoc that names a label absent from this sub-level must be '
+                                   'filtered, not shifted into the next group')):
+            n += 1
+            key = f'Index._loc_to_iloc:no-map+offset:{what}:{aspect}'
+            (ctx.ok if pred(body) else ctx.bad)(R, f, body[0], f'{what}: {aspect} handled' if pred(body) else f'the {what} arm {msg}', key=key)
+    # element: the statements after the dispatch
+    n += 1
+    key = 'Index._loc_to_iloc:no-map+offset:element:membership'
+    (ctx.ok if range_raise(tail) else ctx.bad)(R, f, tail[-1] if tail else branch, 'element: a range test raises before the offset is added' if range_raise(tail) else
+                                               'the element arm returns `key + offset` unchecked: `HLoc[a, 5]` on a 3-label sub-level answers with a position in the next group', key=key)
+    ctx.require(n >= 6, 'arms of the map-less offset branch')
